@@ -90,6 +90,8 @@ type Adversary struct {
 
 	// statistics
 	ByzVotes, ByzProposals, Dups, Fired, Partitions, Claims int
+	AfterValidHolders                                       int // bad-block-after-valid template: honest validators that validated A and nothing since, when B was offered
+	RejectedFirst                                           int // amnesia template: runs whose honest WALs start the height with a rejected proposal
 }
 
 func NewAdversary(n *Net, rng *rand.Rand, byz []int) *Adversary {
